@@ -12,6 +12,8 @@
 //!         ufrag / a stranger's ufrag / none, without MESSAGE-INTEGRITY, optionally followed by garbage frames; 8 n
 //!         connections that send one byte each and stay open; 9 n well-formed frames of random content back to back
 //!   end   0 stay open, 1 FIN, 2 RST
+//! Probe-only knobs (never generated; for hand-written plans): pc_tcp / pc_tcp_a = the ICE-TCP lattice value of the victim /
+//! of the genuine offerer (default 1 = TCP-only), shape 10 = a connection that sends nothing.
 //! Oracles: C07.panic (panic hook), C07.hang (settle step over the wall budget while burning CPU), C07.alloc (bytes
 //! requested in the input's settle window <= 64 x input bytes + 64 KiB + 72 KiB per opened connection + 2 KiB per complete frame above twice the idle window just before,
 //! confirmed by a second delivery; any single request above the whole allowance), C07.alive (afterwards A and B are
@@ -132,6 +134,7 @@ fn hostile_bytes(shape: i64, n: i64, seed: u64, b_ufrag: &str) -> Vec<Vec<u8>> {
             out
         }
         9 => vec![(0..n).flat_map(|i| frame(&rnd(1 + (i * 97 + seed as usize) % 1400, None))).collect()],
+        10 => vec![], // the connection alone, not a byte
         _ => vec![vec![0]],
     }
 }
@@ -262,8 +265,11 @@ pub async fn run(ctx: &Ctx) {
     KEEP.with(|k| k.borrow_mut().clear());
     ctx.net.install_binder();
     let shared = ctx.plan.knob("shared", 0);
-    let k = PcKnobs { mode: 0, mix: ctx.plan.knob("mix", 0), bundle: 0, mux: 0, lite: 0, udpmux: 0, latch: 0, compat: 0, offerer: 0, tcp: if shared == 1 { 4 } else { 1 } };
-    let mut a = Peer::new(ctx, &k, 0);
+    let k = PcKnobs { mode: 0, mix: ctx.plan.knob("mix", 0), bundle: 0, mux: 0, lite: 0, udpmux: 0, latch: 0, compat: 0, offerer: 0, tcp: if shared == 1 { 4 } else { ctx.plan.knob("pc_tcp", 1) } };
+    // knob pc_tcp_a: the genuine offerer's own ICE-TCP setting when it differs from the victim's (0 = ICE-TCP disabled,
+    // the library default: A then only has UDP host candidates)
+    let ka = PcKnobs { tcp: ctx.plan.knob("pc_tcp_a", k.tcp), ..k.clone() };
+    let mut a = Peer::new(ctx, &ka, 0);
     let mut b = Peer::new(ctx, &k, 1);
     a.add_dc(true);
     b.add_dc(true);
